@@ -61,8 +61,27 @@ def r2_offsets_fit_guards(cx):
             for k, v in enumerate(tt["values"]):
                 vers_edges[v] = ("e", sb, k)
             l = op_local(tt["discr"])
-            d = defuse(pp).single_def(l) if l is not None else None
-            okshift = d is not None and d[0] == "stmt" and d[3]["rv"]["k"] == "binop" and d[3]["rv"]["op"] == "Shr" and op_const(d[3]["rv"]["b"]) == 4
+            okshift = False
+            # every definition of the switched value is (a copy of) `<first input byte> >> 4`
+            seen_l = set()
+            work = [l] if l is not None else []
+            shifts = 0
+            other = 0
+            while work:
+                x = work.pop()
+                if x in seen_l:
+                    continue
+                seen_l.add(x)
+                for d in defuse(pp).defs.get(x, []):
+                    if d[0] == "stmt" and d[3]["rv"]["k"] == "binop" and d[3]["rv"]["op"] == "Shr" and op_const(d[3]["rv"]["b"]) == 4:
+                        shifts += 1
+                    elif d[0] == "call" and callee_is(d[2], "ops::Shr::shr") and len(d[2]["args"]) == 2 and op_const(d[2]["args"][1]) == 4:
+                        shifts += 1
+                    elif d[0] == "stmt" and d[3]["rv"]["k"] == "use" and op_local(d[3]["rv"]["op"]) is not None:
+                        work.append(op_local(d[3]["rv"]["op"]))
+                    else:
+                        other += 1
+            okshift = shifts >= 1 and other == 0
             cx.check("version-nibble", okshift, site_of(pp, sb), "the family is selected by the high nibble of the first byte (data[0] >> 4)")
     cx.check("families", set(vers_edges) == {4, 6}, site_of(pp), "exactly the versions 4 and 6 are dissected (found %s)" % sorted(vers_edges))
     calls = [(ci, ct) for ci, ct in pp.calls() if any(d == rff.did for _k, d in prog.cg.resolve(pp, ct))]
